@@ -20,3 +20,9 @@ Proof. repeat split; apply row_in_In; vm_compute; reflexivity. Qed.
    the underlying value sets are nested *)
 Lemma table_named_lossless : forall s t, In (s, t) named_rows -> forall v, dom s v -> dom t v.
 Proof. apply pairs_contained. vm_compute. reflexivity. Qed.
+
+(* every other site at which a typed value meets an expected numeric type (compound assignment, operands of + and *,
+   const, struct field initialiser / assignment, array literal / element, optional, method argument): accepted without a
+   cast only if the value sets are nested *)
+Lemma table_other_lossless : forall s t, In (s, t) other_rows -> forall v, dom s v -> dom t v.
+Proof. apply pairs_contained. vm_compute. reflexivity. Qed.
